@@ -36,13 +36,26 @@ def State.takeReady (s : State) (w a : Nat) : State := { s with readyLock := (w,
 def State.dropReady (s : State) (w : Nat) : State := { s with readyLock := s.readyLock.filter (fun p => p.1 != w) }
 def State.isReady (s : State) (w : Nat) : Bool := s.ready.contains w
 
-/-- is the sync caller `w` still registered with a live condition variable? (it drops it before pruning) -/
+/-- does activity `b` hold a strong reference to the condition variable of sync caller `w`?
+(the caller itself until it drops it; a notifier for the callers it has still to signal; whoever is
+dropping the caller's lifetime-erased job until the notify_all is done) -/
+def pcHoldsCv (s : State) (w : Nat) (b : Nat) : Pc → Bool
+  | .rqNotifyAcq _ todo _ _ | .rqNotify _ todo _ _ | .rqNotifyRel _ todo _ _ => todo.contains w || b == w
+  | .sbPrune _ | .ret | .dead | .panicked => false
+  | .jobDropNotify j _ | .jobDrop j _ =>
+      (match s.jobs[j]? with
+       | some jb => (match jb.kind with | .erasedBg o _ => o == w | _ => false)
+       | none => false) || b == w
+  | _ => b == w
+
+/-- Is the condition variable of sync caller `w` still alive (`Weak::strong_count() > 0`)?  It is
+kept alive by the caller until `mem::drop(wakeup)`, by its queued lifetime-erased job, and by any
+notifier that has upgraded it and not signalled it yet. -/
 def State.waiterLive (s : State) (w : Nat) : Bool :=
-  match s.acts[w]? with
-  | some v => match v.pc with
-    | .sbPrune _ | .ret | .dead => false
-    | _ => true
-  | none => false
+  (List.range s.acts.length).any (fun b => match s.acts[b]? with
+    | some v => pcHoldsCv s w b v.pc
+    | none => false)
+  || s.jobs.any (fun jb => match jb.kind with | .erasedBg o _ => o == w && jb.ph != .done | _ => false)
 
 def State.setWoken (s : State) (a : Nat) (b : Bool) : State :=
   match s.acts[a]? with
@@ -180,7 +193,7 @@ def stepAct (s : State) (a : Nat) : Option (State × Obs) :=
       if s.threadsLock.isSome then none else
       if spawnAllowed s.threadsVec.length m then
         let p := s.pthreads.length
-        let newAct : Act := { thread := 0, pc := .ptRecv p, parent := none, child := none, woken := false, result := none }
+        let newAct : Act := { thread := 1000 + p, pc := .ptRecv p, parent := none, child := none, woken := false, result := none }
         let newPt : PThr := { busy := false, busyLock := none, mailbox := 0, hungUp := false, exited := false }
         let s1 := { s with pthreads := s.pthreads ++ [newPt],
                            threadsVec := s.threadsVec ++ [p], threadsLock := some a, acts := s.acts ++ [newAct] }
@@ -355,13 +368,14 @@ def stepAct (s : State) (a : Nat) : Option (State × Obs) :=
       if !act.woken then none else
       if s.readyHeld a then none else
       some (((s.takeReady a a).setWoken a false).goto a (.sbTest q j), .acqG a)
-  | .sbDone q _ => some ((s.dropReady a).goto a (.sbPrune q), .csG a)
+  | .sbDone q _ => some ((s.dropReady a).goto a (.sbDropCv q), .csG a)
+  | .sbDropCv q => some (s.goto a (.sbPrune q), .wakeupDropped)
   | .sbPrune q =>
       match s.qs[q]? with
       | none => none
       | some v =>
         let s0 := s.goto a .ret
-        some (s0.setQ q { v with waiters := v.waiters.filter (fun w => w != a && s.waiterLive w) }, .csQ q)
+        some (s0.setQ q { v with waiters := v.waiters.filter (fun w => s.waiterLive w) }, .csQ q)
   -- ---------------------------------------------------------------- run_one_job_now
   | .rjDequeue q k =>
       let (s1, got) := s.dequeue q a
